@@ -52,6 +52,20 @@ def run(P, R, tier):
             if isinstance(c_, ast.Call) and isinstance(c_.func, ast.Attribute) and c_.func.attr in ('join', 'merge') or \
                     (isinstance(c_, ast.Call) and norm(c_.func).endswith('concat') and any(k.arg == 'axis' and norm(k.value) == '1' for k in c_.keywords)):
                 R.bad('C09.a', g_, c_, f'`{norm(c_)[:90]}` attaches the distances by an index-LABEL join: with a non-unique index rows are multiplied and paired with other rows\' distances')
+    bind = None
+    if not lam:
+        # the per-partition function may also be a module-level function handed to map_partitions with keyword arguments
+        for c_ in astq.own_calls(wh):
+            if isinstance(c_.func, ast.Attribute) and c_.func.attr == 'map_partitions' and c_.args and isinstance(c_.args[0], ast.Name):
+                r_ = P.resolve_expr_static(wh.mod, c_.args[0], wh)
+                if r_ and r_[0] == 'func':
+                    lam = [r_[1]]
+                    bind = {}
+                    for k_, a_ in zip(r_[1].params[1:], c_.args[1:]):
+                        bind[k_] = a_
+                    for k_ in c_.keywords:
+                        if k_.arg in r_[1].params:
+                            bind[k_.arg] = k_.value
     R.floor('C09.a', 'per-partition functions in _with_hilbert_distance_column', len(lam), 1)
     l = lam[0]
     call = None
@@ -65,16 +79,22 @@ def run(P, R, tier):
     if ok:
         tb = astq.arg_of(call, kw='total_bounds')
         pv = astq.arg_of(call, kw='p')
+        if bind is not None:
+            # values inside the module-level function are its parameters: replace them by what map_partitions passes (a parameter that is not passed keeps its default)
+            tb = bind.get(tb.id) if isinstance(tb, ast.Name) and tb.id in l.params else tb
+            pv = bind.get(pv.id) if isinstance(pv, ast.Name) and pv.id in l.params else pv
         tbd = None
-        if isinstance(tb, ast.Name) and tb.id not in l.params:
+        if isinstance(tb, ast.Name) and (tb.id not in l.params or bind is not None):
             g2, tbd = astq.unique_def(wh, tb.id)
+        elif isinstance(tb, ast.Attribute) and bind is not None:
+            tbd = tb          # written in place at the map_partitions call
         okt = isinstance(tbd, ast.Attribute) and tbd.attr == 'total_bounds'
         src = astq.trace(wh, tbd.value) if okt else None
         okt = okt and isinstance(src, ast.AST) and norm(src) == 'self.geometry'
         R.check(okt, 'C09.a', wh, call, 'total_bounds is the frame-level extent of the active geometry, bound once outside the per-partition function and passed explicitly',
                 f'total_bounds passed to the partitions is `{norm(tb) if tb is not None else None}` (= {norm(tbd) if isinstance(tbd, ast.AST) else tbd}): per-partition or default extents give '
                 f'each partition its own grid, so distances are not comparable across partitions')
-        R.check(pv is not None and norm(pv) == wh.params[1], 'C09.a', wh, call, 'the caller\'s p reaches hilbert_distance', f'p passed to hilbert_distance is `{norm(pv) if pv is not None else None}`')
+        R.check(pv is not None and norm(pv) == wh.params[1], 'C09.a', wh, call, 'the caller\'s p reaches hilbert_distance', f'p passed to hilbert_distance is `{norm(pv) if pv is not None else None}`' + (' (the per-partition function\'s default: the caller\'s p is not forwarded by map_partitions)' if pv is None and bind is not None else ''))
     mp = [c for c in astq.own_calls(wh) if isinstance(c.func, ast.Attribute) and c.func.attr == 'map_partitions']
     okm = bool(mp) and isinstance(astq.trace(wh, mp[0].func.value), ast.AST) and norm(astq.trace(wh, mp[0].func.value)) == 'self.geometry'
     if not okm and mp and call is not None and isinstance(call.func.value, ast.Subscript):
